@@ -292,13 +292,23 @@ fn addr(i: usize) -> ConnectionAddr {
         2 => ConnectionAddr::TcpTls { host: "tls.example".into(), port: 6381, insecure: false },
         3 => ConnectionAddr::TcpTls { host: "tls.example".into(), port: u16::MAX, insecure: true },
         4 => ConnectionAddr::Unix(PathBuf::from("/run/redis/üñí.sock")),
-        _ => ConnectionAddr::Unix(PathBuf::from("")),
+        5 => ConnectionAddr::Unix(PathBuf::from("")),
+        // hosts that contain what elsewhere separates host and port, or scheme
+        // and host: bare IPv6 literals (as the redis crate's url parser produces
+        // them), a literal ending in a decimal group, IPv4, and odd strings
+        6 => ConnectionAddr::Tcp("::1".into(), 6379),
+        7 => ConnectionAddr::TcpTls { host: "2001:db8::10:6380".into(), port: 6380, insecure: false },
+        8 => ConnectionAddr::Tcp("10.0.0.7".into(), 1),
+        9 => ConnectionAddr::Tcp("[::1]:7000".into(), 6379),
+        10 => ConnectionAddr::Tcp("redis://h.example/3".into(), 6379),
+        _ => ConnectionAddr::TcpTls { host: "h.example:6390".into(), port: 6379, insecure: true },
     }
 }
+const ADDRS: usize = 12;
 
 pub fn sweep_conversions() -> Outcome {
     let mut viol = Vec::new();
-    let a = choose_free(6);
+    let a = choose_free(ADDRS);
     let db = [0i64, 1, -1, i64::MAX][choose_free(4)];
     let opt = |i: usize| [None, Some(String::new()), Some("väl".to_string())][i].clone();
     let username = opt(choose_free(3));
